@@ -177,7 +177,7 @@ class _OneIteration(Exception):
     pass
 
 
-@obligation("loop/inductive_step_any_rep_max", params=[{"first": f} for f in ("guard_and_body", )], timeout=300,
+@obligation("loop/inductive_step_any_rep_max", params=[{"first": f} for f in ("guard_and_body", "answer_numpy_bool", "answer_int")], timeout=300,
             desc="the repetition loop of _simulate_for_current_params_common for SYMBOLIC rep_max >= 1 from an ARBITRARY loop-head state "
                  "(count c >= 0, merged value v, number k >= 0 of repetitions skipped so far, all symbolic): if the guard fails the loop "
                  "exits with (c, v) unchanged and [stop rule said stop or c >= rep_max]; if it holds (then c < rep_max) one iteration "
@@ -224,7 +224,9 @@ def ob_loop_inductive(first):
             periodic.append((current_rep, _fld(d["v"][-1], "num_updates"), _fld(d["v"][-1], "_value")))
         saver.save_partial_results_maybe = maybe
         kg = []
-        r._keep_going = lambda p, res, rep: kg.append((rep, bool(c.fresh_var("keep_going", "bool")))) or kg[-1][1]
+        # the user's stop rule may answer with any truth value: a Python bool, a numpy bool (a comparison of numpy counters), 0 / 1
+        wrap = {"guard_and_body": bool, "answer_numpy_bool": np.bool_, "answer_int": int}[first]
+        r._keep_going = lambda p, res, rep: kg.append((rep, bool(c.fresh_var("keep_going", "bool")))) or wrap(kg[-1][1])
         fn = it.ifunc_from_spec("pyphysim.simulations.runner:SimulationRunner._simulate_for_current_params_common")
         loops = [n for n in ast.walk(fn.node) if isinstance(n, ast.While) and "rep_max" in ast.unparse(n.test)]
         if len(loops) != 1:
@@ -499,6 +501,16 @@ def ob_lookup():
                 return {"unpack_index": q.unpack_index, "position": i}
             if q["x"] != 3 or list(q["packed"]) != [7, 8]:
                 return {"regular params not carried": i}
+        # every combination owns its values: user code that changes a list / array valued parameter of ITS combination in place (a
+        # work buffer, a per-run table) must not reach the sibling combinations or the grid they were unpacked from
+        if names:          # (with nothing to unpack the single "combination" IS the parameters object itself)
+            plist2 = p.get_unpacked_params_list()
+            plist2[0]["packed"].append(99)
+            plist2[0]["packed"][0] = -1
+            if any(list(q["packed"]) != [7, 8] for q in plist2[1:]) or list(p["packed"]) != [7, 8] or \
+                    any(list(q["packed"]) != [7, 8] for q in p.get_unpacked_params_list()):
+                return {"an in-place change of one combination's list parameter reached its siblings or the parent grid": True,
+                        "parent": list(p["packed"]), "siblings": [list(q["packed"]) for q in plist2[1:3]]}
         res = SimulationResults()
         res.set_parameters(p)
         for i in range(V):
